@@ -13,7 +13,7 @@ import z3
 from symnp import Engine, Rebinder, SV, SB, SIdx, SymArray, sym_array, to_obj, _raw, arr1
 from symnp import ob as O
 from symnp.explore import Out
-from vf.common import Harness, snap, stubs, RngStub, cached_options, LoggerStub, TargetFault, TimerStub
+from vf.common import Harness, snap, stubs, RngStub, cached_options, LoggerStub, TargetFault, FaultSite, TimerStub
 from vf import astcut
 
 import pybads.bads.bads as badsmod
@@ -44,6 +44,7 @@ class HTAIL(Harness):
     def case(self, eng):
         p = self.p
         D, level, it, nfs, fault = p["D"], p.get("level", 0), p.get("it", 2), p.get("nfs", 2), p.get("fault", False)
+        fsite = FaultSite(p.get("fault_kind"))
         opts = cached_options(D, {})
         opts["noise_final_samples"] = nfs
         opts["specify_target_noise"] = level == 2
@@ -107,7 +108,7 @@ class HTAIL(Harness):
             def __call__(s, u, record_duplicate_data=True):
                 if fault and eng.choose("fault"):
                     calls.append(None)
-                    raise TargetFault("target failed")
+                    fsite.fire("target failed")
                 y = eng.fresh_real("y")
                 sd = None
                 if level == 2:
@@ -138,12 +139,14 @@ class HTAIL(Harness):
         R = None
         try:
             R = tail(self_, dict(poll_iteration=it, gp=gp, timer=TimerStub(), msg="msg-xyz"))
-        except TargetFault as e:
+        except Exception as e:
+            if not fsite.raised:
+                raise
             exc = e
         out.tag = dict(calls=len(calls), exc=bool(exc))
         if fault:
             faulted = [i for i, c in enumerate(calls) if c is None]
-            out.ob("fault_escapes_unchanged", (exc is not None) == bool(faulted))
+            out.ob("fault_escapes_unchanged", (exc is not None) == bool(faulted) and fsite.escaped(exc))
             out.ob("no_call_after_fault", (not faulted) or faulted[0] == len(calls) - 1)
         if exc is not None:
             return out
